@@ -155,10 +155,11 @@ Definition gstep' (e : env) (s : state) (o : gop) : state :=
   match gstep e s o with Ok s' _ => s' | _ => s end.
 Definition grun (e : env) (s : state) (ops : list gop) : state := fold_left (gstep' e) ops s.
 
-(* verdicts on a probed genesis state: Validate, and the class of InitGenesis when it passes
-   (InitGenesis validates again: it can only panic when validation fails) *)
+(* both verdicts on a probed genesis state: Validate, and the class of InitGenesis, which the
+   implementation runs on every probed state (also those Validate refuses) on an emptied store
+   (InitGenesis validates first: it panics exactly when validation fails) *)
 Definition probe (e : env) (s : state) (g : genesis) : list Z :=
-  if validate_genesis g then [1; rcode (class_of (init_genesis e s g))] else [0; -1].
+  [(if validate_genesis g then 1 else 0); rcode (class_of (init_genesis e s g))].
 
 (** * Correspondence-check support *)
 
